@@ -123,8 +123,16 @@ theorem cast_lv (o : TraceOpts) : ∀ (t : Ty) (v : Val) (a : Arr) (dt : DataTyp
   | t, .tuple vs, a, dt, nb, md, nl, hf, hw, hm, hwf => by
     cases t with
     | prim p => cases p <;> simp [wt, Prim.wt] at hw
-    | tuple ts => simp [frag] at hf
-    | tupleStruct n ts => simp [frag] at hf
+    | tuple ts =>
+      simp only [mappingDT, Prod.mk.injEq] at hm; obtain ⟨rfl, rfl, rfl⟩ := hm
+      obtain ⟨len, vv, cols, rfl, _, hcols⟩ := wf_struct hwf
+      have ih := cast_lvPos o ts vs 0 cols len (by simpa [frag] using hf) (by simpa [wt] using hw) hcols
+      simp [toTarget, lv, norm, dvalOf, Read.cast, Read.tupleClaim, ih, Read.andThenL, DVals.ofList_toList]
+    | tupleStruct n ts =>
+      simp only [mappingDT, Prod.mk.injEq] at hm; obtain ⟨rfl, rfl, rfl⟩ := hm
+      obtain ⟨len, vv, cols, rfl, _, hcols⟩ := wf_struct hwf
+      have ih := cast_lvPos o ts vs 0 cols len (by simpa [frag] using hf) (by simpa [wt] using hw) hcols
+      simp [toTarget, lv, norm, dvalOf, Read.cast, Read.tupleClaim, ih, Read.andThenL, DVals.ofList_toList]
     | _ => simp [wt] at hw
   | t, .struct vs, a, dt, nb, md, nl, hf, hw, hm, hwf => by
     cases t with
@@ -186,6 +194,24 @@ theorem cast_lvFields (o : TraceOpts) (cols : ArrFields) (lfs : LFields) : ∀ (
     have ih := cast_lvFields o cols lfs rest vrest hf.2 hw.2 hr
     simp [toTargetFields, Read.castFields, h1, hc, ih, normFields, dvalFields, Read.DEntries.toList, Read.consClaim,
       Read.must, nameKey]
+
+theorem cast_lvPos (o : TraceOpts) : ∀ (ts : Tys) (vs : Vals) (i : Nat) (cols : ArrFields) (len : Nat),
+    fragTys ts = true → wtPos ts vs = true → Spec.wfFields (mappingPos o i ts) cols len = true →
+    Read.castTuple (toTargets ts) cols (lvPos i ts vs) = .ok (some (dvalPos ts (normPos ts vs)).toList)
+  | .nil, .nil, _, _, _, _, _, _ => by simp [toTargets, Read.castTuple, normPos, dvalPos, Read.DVals.toList]
+  | .nil, .cons _ _, _, _, _, _, hw, _ => by simp [wtPos] at hw
+  | .cons _ _, .nil, _, _, _, _, hw, _ => by simp [wtPos] at hw
+  | .cons t rest, .cons v vrest, i, .nil, len, _, _, h => by
+    rcases hm : mappingDT o t with ⟨dt, nb, md⟩
+    simp [mappingPos, hm, Spec.wfFields] at h
+  | .cons t rest, .cons v vrest, i, .cons fm a arest, len, hf, hw, h => by
+    rcases hm : mappingDT o t with ⟨dt, nb, md⟩
+    simp only [mappingPos, hm, Spec.wfFields, Bool.and_eq_true] at h
+    simp only [fragTys, Bool.and_eq_true] at hf
+    simp only [wtPos, Bool.and_eq_true] at hw
+    have hc := cast_lv o t v a dt nb md nb hf.1 hw.1 hm (by simpa [Field.dataType, Field.nullable] using h.1.2)
+    have ih := cast_lvPos o rest vrest (i + 1) arest len hf.2 hw.2 h.2
+    simp [toTargets, lvPos, Read.castTuple, hc, ih, normPos, dvalPos, Read.DVals.toList, Read.consClaim, Read.must]
 end
 
 end SaModel.Roundtrip
